@@ -159,6 +159,10 @@ static void do_rsa(vf_case *c) {
 		memcpy(s2, sig, sl); VF_TRY(th, v = cp_rsa_ver(s2, sl - 1, in, inl, mode, pub)); if (!th) JUDGE("cp_rsa_ver", "the signature truncated by its last byte (length k - 1)", v, 0);
 		if (sig[0] == 0) { memcpy(s2, sig + 1, sl - 1); VF_TRY(th, v = cp_rsa_ver(s2, sl - 1, in, inl, mode, pub)); if (!th) JUDGE("cp_rsa_ver", "the signature with its leading zero byte stripped", v, 0); }
 		free(s3); }
+	/* the encoded message itself altered and re-signed with the private exponent (GMP): the padding, not the signature integer, is what is wrong */
+	{ mpz_t D, EM, EM2, S2; mpz_inits(D, EM, EM2, S2, NULL); vf_bn_get(D, prv->d); mpz_import(sg, sl, 1, 1, 0, 0, sig); mpz_powm(EM, sg, E, N); size_t embits = mpz_sizeinbase(N, 2) - 1; uint8_t *s3 = malloc(kl + 16);
+		if (mpz_sgn(D) > 0) for (size_t b = 0; b <= embits + 1; b += (b < 24 || b + 24 > embits ? 1 : (vf_tier ? 3 : 11))) { mpz_set(EM2, EM); if (mpz_tstbit(EM2, b)) mpz_clrbit(EM2, b); else mpz_setbit(EM2, b); if (mpz_cmp(EM2, N) >= 0) continue; mpz_powm(S2, EM2, D, N); memset(s3, 0, kl); size_t n = (mpz_sizeinbase(S2, 2) + 7) / 8; if (mpz_sgn(S2)) mpz_export(s3 + kl - n, NULL, 1, 1, 0, 0, S2); snprintf(desc, sizeof desc, "a signature of the encoded message with bit %zu (of %zu) flipped", b, embits); VERR(s3, kl, in, inl, pub, N, dg, desc); }
+		free(s3); mpz_clears(D, EM, EM2, S2, NULL); }
 	/* foreign key */
 	{ mpz_t N2; mpz_init(N2); vf_bn_get(N2, pub2->crt->n); VERR(sig, sl, in, inl, pub2, N2, dg, "a foreign public key"); mpz_clear(N2); }
 	free(msg); free(sig); free(s2); mpz_clears(N, E, t, sg, NULL);
@@ -245,10 +249,10 @@ out:
 }
 
 /* ---------------------------------------------------------------- tier B: completeness + structurally invalid mutations */
-/* tb: scheme (0 vbnn, 1 pokdl, 2 pokor, 3 sokdl, 4 sokor, 5 cli, 6 psb, 7 mklhs-single), cid, seed, len, pat */
+/* tb: scheme (0 vbnn, 1 pokdl, 2 pokor, 3 sokdl, 4 sokor, 5 cli, 6 psb, 7 ers, 8 smlers), cid, seed, len, pat */
 static void do_tb(vf_case *c) {
 	int sch = (int)mpz_get_si(c->v[0]); long cid = mpz_get_si(c->v[1]); unsigned long seed = mpz_get_ui(c->v[2]); size_t len = mpz_get_ui(c->v[3]); unsigned pat = (unsigned)mpz_get_ui(c->v[4]);
-	if (sch >= 5) { if (!select_pc(cid)) { vf_fail(NULL, "parameter set refused"); return; } } else if (!select_curve(cid)) { vf_fail(NULL, "curve refused"); return; }
+	if (sch == 5 || sch == 6) { if (!select_pc(cid)) { vf_fail(NULL, "parameter set refused"); return; } } else if (!select_curve(cid)) { vf_fail(NULL, "curve refused"); return; }
 	uint8_t *msg = malloc(len + 8), *m2 = malloc(len + 8); fill(msg, len, pat); memcpy(m2, msg, len); if (len) m2[len / 2] ^= 0x10; int th, v; seed_drbg(seed);
 	#define ACC(WHO, X, DESC) do { VF_TRY(th, v = (X)); if (th) vf_fail(NULL, "%s raised %d for: %s", WHO, th, DESC); else JUDGE(WHO, DESC, v, 1); } while (0)
 	#define REJ(WHO, X, DESC) do { VF_TRY(th, v = (X)); if (!th) JUDGE(WHO, DESC, v, 0); else { transitions++; nrej++; } } while (0)
@@ -280,6 +284,18 @@ static void do_tb(vf_case *c) {
 		for (int i = 0; i < L; i++) { bn_copy(keep, ms[i]); bn_add_dig(ms[i], ms[i], 1); REJ("cp_psb_ver", cp_psb_ver(a, b, (const bn_t *)ms, gg, x, (const g2_t *)y, L), "a message + 1"); bn_copy(ms[i], keep); }
 		g1_get_gen(g); g1_add(g, g, b); g1_norm(g, g); REJ("cp_psb_ver", cp_psb_ver(a, g, (const bn_t *)ms, gg, x, (const g2_t *)y, L), "b + G"); g1_set_infty(g); REJ("cp_psb_ver", cp_psb_ver(g, g, (const bn_t *)ms, gg, x, (const g2_t *)y, L), "the all-identity signature");
 	}
+	else if (sch == 7 || sch == 8) { enum { R = 4 }; bn_t td, sk[R], keep, td2; ec_t pp, pk[R]; bn_new(td); bn_new(keep); bn_new(td2); ec_new(pp); for (int i = 0; i < R; i++) { bn_new(sk[i]); ec_new(pk[i]); VF_TRY(th, v = cp_ers_gen_key(sk[i], pk[i])); } VF_TRY(th, v = cp_ers_gen(pp));
+		if (sch == 7) { ers_t ring[R]; for (int i = 0; i < R; i++) { ers_null(ring[i]); ers_new(ring[i]); } size_t size = 1; VF_TRY(th, v = cp_ers_sig(td, ring[0], msg, len, sk[0], pk[0], pp)); if (th || v != RLC_OK) { vf_fail(NULL, "cp_ers_sig failed"); return; }
+			for (int j = 0; j < R; j++) { if (j) { VF_TRY(th, v = cp_ers_ext(td, ring, &size, msg, len, pk[j], pp)); if (th || v != RLC_OK) { vf_fail(NULL, "cp_ers_ext failed at ring size %d", j + 1); return; } }
+				char d2[96]; snprintf(d2, sizeof d2, "the honest ring signature of size %zu", size); ACC("cp_ers_ver", cp_ers_ver(td, (const ers_t *)ring, size, msg, len, pp), d2); if (len) REJ("cp_ers_ver", cp_ers_ver(td, (const ers_t *)ring, size, m2, len, pp), "one message bit flipped");
+				bn_add_dig(td2, td, 1); REJ("cp_ers_ver", cp_ers_ver(td2, (const ers_t *)ring, size, msg, len, pp), "trapdoor value + 1");
+				/* EVERY member's proof components altered one at a time: each must make the ring signature invalid */
+				for (size_t mbr = 0; mbr < size; mbr++) for (int comp = 0; comp < 4; comp++) { bn_st *x = comp < 2 ? ring[mbr]->c[comp] : ring[mbr]->r[comp - 2]; bn_copy(keep, x); bn_add_dig(x, x, 1); snprintf(d2, sizeof d2, "ring size %zu: member %zu %s[%d] + 1", size, mbr, comp < 2 ? "c" : "r", comp & 1); REJ("cp_ers_ver", cp_ers_ver(td, (const ers_t *)ring, size, msg, len, pp), d2); bn_copy(x, keep); }
+				if (size > 1) REJ("cp_ers_ver", cp_ers_ver(td, (const ers_t *)ring, size - 1, msg, len, pp), "the ring truncated by its last member"); } }
+		else { smlers_t ring[R]; for (int i = 0; i < R; i++) { smlers_null(ring[i]); smlers_new(ring[i]); } size_t size = 1; VF_TRY(th, v = cp_smlers_sig(td, ring[0], msg, len, sk[0], pk[0], pp)); if (th || v != RLC_OK) { vf_fail(NULL, "cp_smlers_sig failed"); return; }
+			for (int j = 0; j < R; j++) { if (j) { VF_TRY(th, v = cp_smlers_ext(td, ring, &size, msg, len, pk[j], pp)); if (th || v != RLC_OK) { vf_fail(NULL, "cp_smlers_ext failed at ring size %d", j + 1); return; } }
+				char d2[96]; snprintf(d2, sizeof d2, "the honest same-message linkable ring signature of size %zu", size); ACC("cp_smlers_ver", cp_smlers_ver(td, ring, size, msg, len, pp), d2); if (len) REJ("cp_smlers_ver", cp_smlers_ver(td, ring, size, m2, len, pp), "one message bit flipped");
+				bn_add_dig(td2, td, 1); REJ("cp_smlers_ver", cp_smlers_ver(td2, ring, size, msg, len, pp), "trapdoor value + 1"); } } }
 	free(msg); free(m2);
 }
 
@@ -301,7 +317,7 @@ static void enumerate(void) {
 	if (vf_bound_on("ecss")) { for (unsigned ci = 0; ci < 6; ci++) for (int sd = 0; sd < nseed; sd++) for (int li = 0; li < nlen; li++) if (vf_mine()) { K.op = "ecss"; K.n = 4; mpz_set_si(K.v[0], EC[ci]); mpz_set_si(K.v[1], sd); mpz_set_si(K.v[2], LENS[(li * 2 + sd) % 16]); mpz_set_si(K.v[3], 2 + li % 2); vf_run(&K); } vf_bound_done("ecss"); }
 	if (vf_bound_on("rsa-pss")) { static const long BITS[] = {512, 768, 1024}; for (int bi = 0; bi < (vf_tier ? 3 : 2); bi++) for (int sd = 0; sd < (vf_tier ? 2 : 1); sd++) for (int li = 0; li < nlen; li++) for (int mode = 0; mode < 2; mode++) { if (mode && li > 1) continue; if (vf_mine()) { K.op = "rsa"; K.n = 5; mpz_set_si(K.v[0], BITS[bi]); mpz_set_si(K.v[1], sd); mpz_set_si(K.v[2], LENS[(li * 2) % 16]); mpz_set_si(K.v[3], 2); mpz_set_si(K.v[4], mode); vf_run(&K); } } vf_bound_done("rsa-pss"); }
 	if (vf_bound_on("pairing-schemes")) { for (int sch = 0; sch < 5; sch++) for (unsigned ci = 0; ci < 2; ci++) for (int sd = 0; sd < nseed; sd++) for (int li = 0; li < (vf_tier ? 8 : 4); li++) for (int hf = 0; hf < 2; hf++) { if (hf && sch != 1 && sch != 2) continue; if (vf_mine()) { K.op = "pair"; K.n = 6; mpz_set_si(K.v[0], sch); mpz_set_si(K.v[1], PC[ci]); mpz_set_si(K.v[2], sd); mpz_set_si(K.v[3], LENS[(li * 3 + 1) % 16]); mpz_set_si(K.v[4], 2); mpz_set_si(K.v[5], hf); vf_run(&K); } } vf_bound_done("pairing-schemes"); }
-	if (vf_bound_on("structural-schemes")) { for (int sch = 0; sch < 7; sch++) for (unsigned ci = 0; ci < (sch >= 5 ? 2u : 6u); ci++) for (int sd = 0; sd < nseed; sd++) for (int li = 0; li < 4; li++) if (vf_mine()) { K.op = "tb"; K.n = 5; mpz_set_si(K.v[0], sch); mpz_set_si(K.v[1], sch >= 5 ? PC[ci] : EC[ci]); mpz_set_si(K.v[2], sd); mpz_set_si(K.v[3], LENS[(li * 5 + 1) % 16]); mpz_set_si(K.v[4], 2); vf_run(&K); } vf_bound_done("structural-schemes"); }
+	if (vf_bound_on("structural-schemes")) { for (int sch = 0; sch < 9; sch++) for (unsigned ci = 0; ci < (sch == 5 || sch == 6 ? 2u : 6u); ci++) for (int sd = 0; sd < nseed; sd++) for (int li = 0; li < 4; li++) if (vf_mine()) { K.op = "tb"; K.n = 5; mpz_set_si(K.v[0], sch); mpz_set_si(K.v[1], (sch == 5 || sch == 6) ? PC[ci] : EC[ci]); mpz_set_si(K.v[2], sd); mpz_set_si(K.v[3], LENS[(li * 5 + 1) % 16]); mpz_set_si(K.v[4], 2); vf_run(&K); } vf_bound_done("structural-schemes"); }
 	vf_stat_add("transitions", transitions); vf_stat_add("x.mutations_judged", nmut); vf_stat_add("x.oracle_accepts", nacc); vf_stat_add("x.oracle_rejects", nrej);
 }
 VF_MAIN()
